@@ -54,7 +54,9 @@ type Envelope struct {
 	Ser  Ser       // serializers that can express the message
 	Rep  bool      // representative of its message type for stream tests (rich but small)
 	Big  int       // 1500 / 4096: the native encoding is longer than that many bytes (0: not a designated big entry)
-	New  func() *wire.Envelope
+	// NoStream marks a big entry that is too long for the quick tier of the chunked stream tests.
+	NoStream bool
+	New      func() *wire.Envelope
 }
 
 // MsgTypes lists the 17 message types in wire type order.
@@ -326,7 +328,8 @@ func Envelopes() []Envelope {
 	b.add("ChannelUpdateMsg", "rep/"+repState.Name(), func() wire.Msg { m := update(repState, 1); return &m }).Rep = true
 	b.add("ChannelUpdateMsg", "big1500/"+BigState1500.Name(), func() wire.Msg { m := update(BigState1500, 2); return &m }).Big = 1500
 	b.add("ChannelUpdateMsg", "big4096/"+BigState4096.Name(), func() wire.Msg { m := update(BigState4096, 0); return &m }).Big = 4096
-	b.add("ChannelUpdateMsg", "bigassets/"+BigStateAssets.Name(), func() wire.Msg { m := update(BigStateAssets, 0); return &m }).Big = 4096
+	e := b.add("ChannelUpdateMsg", "bigassets/"+BigStateAssets.Name(), func() wire.Msg { m := update(BigStateAssets, 0); return &m })
+	e.Big, e.NoStream = 4096, true
 	b.add("ChannelUpdateMsg", "actor=65535", func() wire.Msg { m := update(repState, math.MaxUint16); return &m })
 
 	// Virtual channel funding / settlement proposals: parent update x signed state of the
